@@ -57,10 +57,12 @@ type State struct {
 	hac  map[string]string // allocation counter when the key was last written (bounds the refs stored under it)
 	gen  int
 	ac   string
+	// spawned: on some path to here this function has started a goroutine (see syncPoint)
+	spawned bool
 }
 
 func (s *State) clone() *State {
-	n := &State{heap: make(map[string]string, len(s.heap)), hac: make(map[string]string, len(s.hac)), gen: s.gen, ac: s.ac}
+	n := &State{heap: make(map[string]string, len(s.heap)), hac: make(map[string]string, len(s.hac)), gen: s.gen, ac: s.ac, spawned: s.spawned}
 	for k, v := range s.heap {
 		n.heap[k] = v
 	}
@@ -129,6 +131,7 @@ type FnCtx struct {
 	retCount     int
 	watchBase    []watch
 	uncontracted map[string]bool
+	inBlockLocals bool // call-site clauses: locals defined earlier in the block being executed may be named
 	usedContracts map[*Contract]bool // contracts applied at this function's call sites (dependency closure of a property check)
 	debugNames   map[*ssa.BasicBlock]map[string]ssa.Value
 	ifaceSeen    map[string]types.Type
@@ -337,6 +340,38 @@ func (o *Obl) script(withModel bool) string {
 	}
 	if o.ExpectSat {
 		fmt.Fprintf(&b, "(assert %s)\n", and(o.Reach, o.Goal))
+	} else if names, sorts, body, ok := splitForall(o.Goal); ok && !o.Canary {
+		// A universally quantified goal: refute it at fresh constants (skolemisation - equivalent), and hand the solver the
+		// instance at those constants of every assumed fact that is a universal statement over the same sorts (sound: an
+		// instance of an assumption). Loop invariants over "all elements so far" are preserved by exactly this instance.
+		repl := make([]string, 0, 2*len(names))
+		for i, n := range names {
+			sk := "|sk!" + strings.Trim(n, "|") + "|"
+			fmt.Fprintf(&b, "(declare-const %s %s)\n", sk, sorts[i])
+			repl = append(repl, n, sk)
+		}
+		for _, it := range fc.items[:o.NItems] {
+			if !strings.HasPrefix(it, "(assert (forall ((") {
+				continue
+			}
+			ns, ss, fb, ok := splitForall(it[len("(assert ") : len(it)-1])
+			if !ok || len(ss) != len(sorts) || strings.HasPrefix(fb, "(! ") {
+				continue
+			}
+			same := true
+			r2 := make([]string, 0, 2*len(ns))
+			for i := range ss {
+				if ss[i] != sorts[i] {
+					same = false
+				}
+				r2 = append(r2, ns[i], repl[2*i+1])
+			}
+			if same {
+				fmt.Fprintf(&b, "(assert %s)\n", strings.NewReplacer(r2...).Replace(fb))
+			}
+		}
+		fmt.Fprintf(&b, "(assert %s)\n", o.Reach)
+		fmt.Fprintf(&b, "(assert %s)\n", not(strings.NewReplacer(repl...).Replace(body)))
 	} else {
 		fmt.Fprintf(&b, "(assert %s)\n", o.Reach)
 		fmt.Fprintf(&b, "(assert %s)\n", not(o.Goal))
@@ -350,6 +385,27 @@ func (o *Obl) script(withModel bool) string {
 		fmt.Fprintf(&b, "(get-value (%s))\n", strings.Join(ts, " "))
 	}
 	return b.String()
+}
+
+// splitForall takes "(forall ((n1 s1) (n2 s2)) body)" apart.
+func splitForall(t string) (names, sorts []string, body string, ok bool) {
+	if !strings.HasPrefix(t, "(forall (") || !strings.HasSuffix(t, ")") {
+		return
+	}
+	parts := splitSexp(t[len("(forall ") : len(t)-1])
+	if len(parts) != 2 {
+		return
+	}
+	bl := parts[0]
+	for _, bd := range splitSexp(bl[1 : len(bl)-1]) {
+		ns := splitSexp(bd[1 : len(bd)-1])
+		if len(ns) != 2 {
+			return nil, nil, "", false
+		}
+		names = append(names, ns[0])
+		sorts = append(sorts, ns[1])
+	}
+	return names, sorts, parts[1], len(names) > 0
 }
 
 // ---------------------------------------------------------------------------
@@ -570,6 +626,9 @@ func (fc *FnCtx) mergeStates(conds []string, sts []*State) *State {
 		return sts[0].clone()
 	}
 	out := &State{heap: map[string]string{}, hac: map[string]string{}}
+	for _, s := range sts {
+		out.spawned = out.spawned || s.spawned
+	}
 	sameGen := true
 	for _, s := range sts[1:] {
 		if s.gen != sts[0].gen {
@@ -726,6 +785,7 @@ func (fc *FnCtx) store(st *State, loc *Loc, v V) {
 			key := loc.S + "." + loc.Pre + c.Suf
 			arr := fc.heapGet(st, key, fieldSort(c.Sort))
 			fc.heapSet(st, key, fieldSort(c.Sort), sx("store", arr, loc.Ref, v.T[i]))
+			fc.noteWrite(key)
 		}
 	case locElem:
 		mk := fc.e.memKey(loc.Ty)
@@ -734,6 +794,7 @@ func (fc *FnCtx) store(st *State, loc *Loc, v V) {
 			arr := fc.heapGet(st, key, memSort(c.Sort))
 			inner := sx("store", sx("select", arr, loc.Ref), loc.Idx, v.T[i])
 			fc.heapSet(st, key, memSort(c.Sort), sx("store", arr, loc.Ref, inner))
+			fc.noteWrite(key)
 		}
 	}
 }
